@@ -266,6 +266,11 @@ def family1(ninputs=2, small=False):
             fam.append((t, [a]))
             for b in S:
                 fam.append((t, [a, b]))
+    for t in ('and', 'or', 'xor'):
+        # three- and four-input groups (a few representative wirings)
+        fam.append((t, [S[0], S[2], S[1]]))
+        fam.append((t, [S[2], S[0], S[0]]))
+        fam.append((t, [S[1], S[3], S[2], S[0]]))
     for a in S:
         fam.append(('not', [a]))
     for a in S[:3]:
